@@ -372,6 +372,26 @@ impl World {
             (View::Sub(c), "inner", "string") => Box::new(move || t_string!(c, inner).to_string()),
             (View::Sub(c), "leaf", "string") => Box::new(move || t_string!(c, deep.leaf).to_string()),
             (View::Deep(c), "leaf", "string") => Box::new(move || t_string!(c, leaf).to_string()),
+            // SUBSCRIBERS: a Memo and an (isomorphic) Effect around t_string!.  They show what they computed when they were last
+            // NOTIFIED - a tracked set_locale notifies them, an untracked one does not (that is what "untracked" means)
+            (View::Root(c), "leaf", "memo") => {
+                let m = Memo::new(move |_| t_string!(c, sub.deep.leaf).to_string());
+                let _ = m.get_untracked();
+                Box::new(move || m.get_untracked())
+            }
+            (View::Sub(c), "leaf", "memo") => {
+                let m = Memo::new(move |_| t_string!(c, deep.leaf).to_string());
+                let _ = m.get_untracked();
+                Box::new(move || m.get_untracked())
+            }
+            (View::Deep(c), "leaf", "memo") => {
+                let m = Memo::new(move |_| t_string!(c, leaf).to_string());
+                let _ = m.get_untracked();
+                Box::new(move || m.get_untracked())
+            }
+            (View::Root(c), "leaf", "effect") => effect_accessor!(t_string!(c, sub.deep.leaf)),
+            (View::Sub(c), "leaf", "effect") => effect_accessor!(t_string!(c, deep.leaf)),
+            (View::Deep(c), "leaf", "effect") => effect_accessor!(t_string!(c, leaf)),
             (View::Root(c), "inner", "view") => {
                 let f = t!(c, sub.inner);
                 Box::new(move || render(f()))
@@ -406,6 +426,19 @@ impl World {
         self.accs.push(a);
     }
 }
+
+macro_rules! effect_accessor {
+    ($e:expr) => {{
+        let cell: Arc<Mutex<String>> = Arc::new(Mutex::new("not-run".to_string()));
+        let c2 = cell.clone();
+        Effect::new_isomorphic(move |_| {
+            *c2.lock().unwrap() = $e.to_string();
+        });
+        flush();
+        Box::new(move || cell.lock().unwrap().clone())
+    }};
+}
+use effect_accessor;
 
 macro_rules! fmt_view_accessor {
     ($c:expr) => {{
